@@ -269,8 +269,25 @@ def c20_locks(src):
                     if not (cname in ("Dimension", "Prefix", "Unit", "Logarithm", "LogarithmicUnit") and mname == "__new__") and not (cname == "Dimension" and mname == "define"):
                         writers.append("%s.%s line %d" % (cname, mname, n.lineno))
     res["C20/static:no-other-registry-writer"] = {"status": "discharged" if not writers else "refuted", "ms": 0, "backend": "static-scan", "complete": True, "note": "; ".join(writers)}
-    # ... and nothing else in the library proper READS them without the lock: between the registration in __new__ and the end of
-    # __init__ the registered instance has no fields yet, so a lock-free reader on another thread can hand out a half-built object
+    # ... and nothing else in the library proper LOOKS AN INSTANCE UP in them without the lock (subscript, .get/.setdefault/.pop, `in`):
+    # between the registration in __new__ and the end of __init__ the registered instance has no fields yet, so a lock-free lookup on
+    # another thread hands out a half-built object, and a lock-free membership test is a second check-then-act window.
+    # Iterating or counting the table (listing helpers, the hypothesis strategies) is not a lookup and is not restricted.
+    def lookups(root):
+        out = []
+        for n in ast.walk(root):
+            tgt = None
+            if isinstance(n, ast.Subscript) and isinstance(n.ctx, ast.Load):
+                tgt = n.value
+            elif isinstance(n, ast.Call) and isinstance(n.func, ast.Attribute) and n.func.attr in ("get", "setdefault", "pop", "__getitem__", "__contains__"):
+                tgt = n.func.value
+            elif isinstance(n, ast.Compare) and any(isinstance(o, (ast.In, ast.NotIn)) for o in n.ops):
+                for cmp_ in n.comparators:
+                    if isinstance(cmp_, ast.Attribute) and cmp_.attr == "_known":
+                        out.append(cmp_)
+            if isinstance(tgt, ast.Attribute) and tgt.attr == "_known":
+                out.append(tgt)
+        return out
     readers = []
     for cname in ("Dimension", "Prefix", "Unit"):
         for mname, fi in core.classes[cname].methods.items():
@@ -280,17 +297,15 @@ def c20_locks(src):
             for w in ast.walk(fi.node):
                 if isinstance(w, ast.With) and any("_interning_lock" in ast.unparse(i.context_expr) for i in w.items):
                     locked |= {id(x) for x in ast.walk(w)}
-            for n in ast.walk(fi.node):
-                if isinstance(n, ast.Attribute) and n.attr == "_known" and id(n) not in locked:
+            for n in lookups(fi.node):
+                if id(n) not in locked:
                     readers.append("%s.%s line %d: %s" % (cname, mname, n.lineno, ast.unparse(n)))
     in_classes = {id(x) for cname in ("Dimension", "Prefix", "Unit") for fi in core.classes[cname].methods.values() for x in ast.walk(fi.node)}
     for mname_, mod in prog.modules.items():
         if mname_ in ("measured.hypothesis", "measured.pytest", "measured._parser"):
             continue
-        for n in ast.walk(mod.tree):
-            if isinstance(n, ast.Attribute) and n.attr == "_known" and isinstance(n.value, ast.Name) and n.value.id in ("Dimension", "Prefix", "Unit"):
-                if mname_ == "measured" and id(n) in in_classes:
-                    continue  # inside the three classes themselves: covered above (__new__/define are the listed accessors)
+        for n in lookups(mod.tree):
+            if isinstance(n.value, ast.Name) and n.value.id in ("Dimension", "Prefix", "Unit") and not (mname_ == "measured" and id(n) in in_classes):
                 readers.append("%s line %d: %s" % (mname_, n.lineno, ast.unparse(n)))
     res["C20/static:no-lock-free-registry-reader"] = {"status": "discharged" if not readers else "refuted", "ms": 0, "backend": "static-scan", "complete": True, "note": "; ".join(readers)}
     return res
